@@ -36,6 +36,8 @@ type overlapStats struct {
 	withFrags  int
 	maxNesting int
 	events     int
+	// last (schema, document) on which the model exceeded the driver deadline although Go answered
+	modelTimeoutDoc [2]string
 }
 
 var overlapReasons = []struct {
@@ -194,8 +196,11 @@ func (c *Ctx) corrOverlap(pairs [][2]string, rules string, st *overlapStats, tol
 		st.addGo(parts[0], pairs[i][1])
 		replay := map[string]any{"op": "validate", "rules": rules, "schema": pairs[i][0], "document": pairs[i][1], "go_observation": parts[0], "model_observation": trunc(model[k], 4000)}
 		if len(mp) != 3 {
-			if model[k] == "TIMEOUT" && tolerateTimeout {
+			if model[k] == "TIMEOUT" {
+				// the real rule answered within its deadline but the (slower) model did not within its
+				// own: nothing was compared; counted, and reported only if it is not a rare event
 				st.skipped["MODEL-TIMEOUT"]++
+				st.modelTimeoutDoc = pairs[i]
 				continue
 			}
 			c.Report("correspondence", "overlap-model-reply", fmt.Sprintf("model reply %q on %q", trunc(model[k], 200), pairs[i][1]), replay)
@@ -645,6 +650,19 @@ var overlapExtraSeeds = []string{
 	`{ user(id: 1) { friends(first: 1) { id } ...UF } } fragment UF on User { friends(first: 2) { id } }`,
 }
 
+// overlapDeepCycle: `fragment F on Node { u { u { … { id ...F } … ...F } ...F } }` with k levels —
+// a fragment that spreads itself at every nesting level. The repaired rule terminates on it, but the
+// number of `findConflict` calls grows like c^k (every pair (u_i, u_j) is reached along
+// exponentially many paths, and the in-progress set only cuts cycles).
+func overlapDeepCycle(k int) gen.AdvCase {
+	s := "id"
+	for i := 0; i < k; i++ {
+		s = "u { " + s + " ...F }"
+	}
+	return gen.AdvCase{Name: "fragment-cycle-every-level", SchemaSDL: gen.Adversarial(1)[0].SchemaSDL,
+		Doc: "{ u { ...F } }\nfragment F on Node { " + s + " }\n"}
+}
+
 func overlapEnvInt(name string, def int) int {
 	if v := os.Getenv(name); v != "" {
 		if n, err := strconv.Atoi(v); err == nil {
@@ -787,6 +805,10 @@ func init() {
 				advPairs = append(advPairs, [2]string{a.SchemaSDL, a.Doc})
 			}
 		}
+		for k := 1; k <= 8; k++ {
+			a := overlapDeepCycle(k)
+			advPairs = append(advPairs, [2]string{a.SchemaSDL, a.Doc})
+		}
 		c.corrOverlap(advPairs, OverlapRule, st, true)
 		fmt.Printf("adversarial family documents: %d\n", len(advPairs))
 
@@ -877,6 +899,12 @@ func init() {
 		}
 		fmt.Printf("mutations: %d over %d schemas (document size histogram, 250-byte buckets: %v)\n", done, len(seeds), sizes)
 		st.print()
+		if n := st.skipped["MODEL-TIMEOUT"]; n > 0 {
+			fmt.Printf("  model deadline (60 s) exceeded on %d documents that the real rule answered within 20 s; last: %q\n", n, trunc(st.modelTimeoutDoc[1], 300))
+			if n*2000 > st.cases {
+				c.Report("correspondence", "overlap-model-too-slow", fmt.Sprintf("the model timed out on %d of %d cases", n, st.cases), map[string]any{"schema": st.modelTimeoutDoc[0], "document": st.modelTimeoutDoc[1]})
+			}
+		}
 
 		// (f) timing: largest family size at which one validation stays under 1 s, Go and model
 		if os.Getenv("VERIF_OVERLAP_NOTIMING") == "" {
@@ -895,17 +923,27 @@ func overlapTiming(c *Ctx) {
 	for _, a := range gen.Adversarial(1) {
 		names = append(names, a.Name)
 	}
+	names = append(names, "fragment-cycle-every-level")
 	for fi, name := range names {
 		if name == "introspection-fanout" {
 			continue
 		}
 		lastGo, lastModel := "", ""
 		goDone, modelDone := false, false
-		for k := 1; k <= 4096 && !(goDone && modelDone); k *= 2 {
+		step := func(k int) int { return k * 2 }
+		if strings.HasSuffix(name, "-fanout") || name == "fragment-cycle-every-level" {
+			step = func(k int) int { return k + 1 } // exponential families: linear steps
+		}
+		for k := 1; k <= 4096 && !(goDone && modelDone); k = step(k) {
 			if strings.HasSuffix(name, "-fanout") && k > 24 {
 				break
 			}
-			a := gen.Adversarial(k)[fi]
+			var a gen.AdvCase
+			if name == "fragment-cycle-every-level" {
+				a = overlapDeepCycle(k)
+			} else {
+				a = gen.Adversarial(k)[fi]
+			}
 			req := "validate " + OverlapRule + " " + impl.HexW([]byte(a.SchemaSDL)) + " " + impl.HexW([]byte(a.Doc))
 			var sexp string
 			{
